@@ -9,7 +9,7 @@ import unitlib as U
 from common import REPO, Str, sx
 
 ID = 'C16'
-LEAN_MODULES = ['Cellml.Props.C16', 'Cellml.Tie.UnitsInit', 'Cellml.Tie.Units']
+LEAN_MODULES = ['Cellml.Props.C16', 'Cellml.Tie.UnitsInit', 'Cellml.Tie.Units', 'Cellml.Tie.GenBIso', 'Cellml.Props.C16Gen', 'Cellml.Tie.Iso2', 'Cellml.Props.C16Process']
 N = {'quick': 200, 'thorough': 5000}
 RULE = ('random interleavings of 8-18 operations on 2-3 unit stores / models in one process: UnitStore() / '
         'UnitStore(other) / Model(name[, unit_store=other]) with a GHK-like equation built from equal names and values / '
